@@ -398,6 +398,18 @@ fn sign_verify(rep: &mut Report, what: &'static str, sk: &impl SigningKey, pw: &
     let mut rng = ChaCha8Rng::seed_from_u64(seed ^ 0x5167);
     let data = format!("C07 sign/verify {seed}").into_bytes();
     let r = guarded(|| {
+        // value-dependent encodings: an RSA / DSA / ECDSA signature value whose leading octet is zero is
+        // written as a shorter MPI (1 in 256 signatures): a generated key must verify those too
+        let many = match vk.algorithm() {
+            pgp::crypto::public_key::PublicKeyAlgorithm::RSA => 320,
+            pgp::crypto::public_key::PublicKeyAlgorithm::DSA | pgp::crypto::public_key::PublicKeyAlgorithm::ECDSA => 40,
+            _ => 0,
+        };
+        for i in 0..many {
+            let d = format!("C07 sign/verify {seed} #{i}").into_bytes();
+            let sig = DetachedSignature::sign_binary_data(&mut rng, sk, pw, hash, &d[..]).map_err(|e| format!("sign #{i}: {e}"))?;
+            sig.verify(vk, &d).map_err(|e| format!("verify of signature #{i} over {:?}: {e}", String::from_utf8_lossy(&d)))?;
+        }
         let sig = DetachedSignature::sign_binary_data(&mut rng, sk, pw, hash, &data[..]).map_err(|e| format!("sign: {e}"))?;
         sig.verify(vk, &data).map_err(|e| format!("verify: {e}"))?;
         // and a modified text must not verify
